@@ -492,6 +492,8 @@ func corr(e *env, seed uint64, n int) {
 	thirdPartyStruct(e, next)
 	// --- H: DecryptFragment on multi-track / multi-trun fragments assembled third-party style (multi.go)
 	e.multiCases(r, n/2, next)
+	// --- Y: sample entries from the syntax (typed fixed fields, sinf anywhere among the children): decode + RemoveEncryption + Encode
+	e.entryFixedCases(r, n/2, next)
 	out.Flush()
 }
 
